@@ -252,6 +252,12 @@ func cmdParse(args []string) error {
 		`delete data from ?a {/u<x> "r"@[2006-01-02T15:04:05Z] /u<y>};`,
 		`select ?s from ?a where {?s "p"@[] ?o};`,
 		`select ?s as ?x, ?o from ?a where {?s "p"@[] ?o} order by ?x;`,
+		// ORDER BY with a repeated key (the checker drops the repetition: whatever it remembers belongs to this statement)
+		`select ?s, ?o from ?a where {?s "p"@[] ?o} order by ?s, ?s;`,
+		`select ?s, ?o from ?a where {?s "p"@[] ?o} order by ?s desc, ?o, ?o;`,
+		`select ?s, ?o from ?a where {?s "p"@[] ?o} order by ?o, ?s asc, ?o;`,
+		`select ?s, ?o from ?a where {?s "p"@[] ?o} order by ?o, ?o desc;`, // rejected: one key in two directions
+		`select ?s, count(?o) as ?n from ?a where {?s "p"@[] ?o} group by ?s, ?s order by ?n, ?s, ?n;`,
 		`select ?s as from ?a where {?s "p"@[] ?o};`, // rejected inside VARS after AS
 		`select ?s from ?a where {?s as ?t type ?u "p"@[] ?o as } ;`, // rejected after a modifier keyword
 		`select ?s from ?a where {?s "p"@[?t] ?o at };`,
